@@ -299,6 +299,7 @@ func (c *urrInst) Enabled() []seqx.Event {
 					ev = append(ev, seqx.Ev("KReport", int64(k), int64(i), 0))
 					if i == 0 {
 						ev = append(ev, seqx.Ev("KReport", int64(k), int64(i), 1)) // periodic
+						ev = append(ev, seqx.Ev("KReport", int64(k), int64(i), 2)) // periodic, idle period: all counters zero
 					}
 				}
 			}
@@ -481,7 +482,7 @@ func (c *urrInst) Apply(e seqx.Event) seqx.StepResult {
 			}
 		}
 	case "KReport":
-		k, i, perio := int(e.A[0]), int(e.A[1]), e.A[2] == 1
+		k, i, perio := int(e.A[0]), int(e.A[1]), e.A[2] >= 1
 		s := c.sess[k]
 		set := c.kset[i]
 		trig := uint32(report.USAR_TRIG_VOLTH)
@@ -489,7 +490,17 @@ func (c *urrInst) Apply(e seqx.Event) seqx.StepResult {
 			trig = report.USAR_TRIG_PERIO
 		}
 		others := c.otherSeq(k)
-		o = c.W.Report(UsageReportFor(s.up, trig, set...))
+		sr := UsageReportFor(s.up, trig, set...)
+		if e.A[2] == 2 {
+			// nothing was measured in this period: the report still takes its place in the URR's numbering
+			for n := range sr.Reports {
+				u := sr.Reports[n].(report.USAReport)
+				u.VolumMeasure = report.VolumeMeasure{}
+				sr.Reports[n] = u
+			}
+			j.Tag("idle-period-report")
+		}
+		o = c.W.Report(sr)
 		if j.Crashed(c.W, o) {
 			break
 		}
